@@ -175,27 +175,41 @@ func (e *engine) discover(only string) error {
 		return nil
 	})
 	sort.Strings(files)
+	// a package is relevant if one of its harness files has a harness for this property;
+	// all harness files of a relevant package are overlaid (they may share helpers)
+	relevantDir := map[string]bool{}
+	parsed := map[string][]hdirective{}
+	pkgOf := map[string]string{}
 	for _, f := range files {
 		rel, _ := filepath.Rel(harnessDir, f)
-		dir := filepath.Dir(rel)
-		pkgDir := dir
-		if dir == "_root" {
-			pkgDir = ""
-		}
 		pkgName, dirs, err := parseDirectives(f)
 		if err != nil {
 			e.stale = append(e.stale, fmt.Sprintf("%s: %v", rel, err))
 			continue
 		}
-		relevant := false
+		parsed[f] = dirs
+		pkgOf[f] = pkgName
 		for _, d := range dirs {
 			if d.attrs["prop"] == e.prop {
-				relevant = true
+				relevantDir[filepath.Dir(rel)] = true
 			}
 		}
-		if !relevant {
+	}
+	for _, f := range files {
+		dirs, ok := parsed[f]
+		if !ok {
 			continue
 		}
+		rel, _ := filepath.Rel(harnessDir, f)
+		dir := filepath.Dir(rel)
+		if !relevantDir[dir] {
+			continue
+		}
+		pkgDir := dir
+		if dir == "_root" {
+			pkgDir = ""
+		}
+		pkgName := pkgOf[f]
 		src, _ := os.ReadFile(f)
 		ov := filepath.Join(repoDir, pkgDir, "zz_verif_"+filepath.Base(f))
 		e.overlay[ov] = src
@@ -205,8 +219,16 @@ func (e *engine) discover(only string) error {
 			if d.attrs["prop"] != e.prop {
 				continue
 			}
-			if only != "" && !strings.Contains(d.fn, only) {
-				continue
+			if only != "" {
+				hit := false
+				for _, o := range strings.Split(only, ",") {
+					if strings.Contains(d.fn, o) {
+						hit = true
+					}
+				}
+				if !hit {
+					continue
+				}
 			}
 			h := defaultHarness()
 			h.name, h.pkgDir, h.file, h.prop, h.kernel, h.desc = d.fn, pkgDir, f, e.prop, d.attrs["kernel"], strings.TrimSpace(d.desc)
@@ -284,6 +306,9 @@ func (e *engine) load() error {
 					file = file[:i]
 				}
 				if e.harnessFiles[file] && !strings.HasSuffix(file, "zz_verif_rt.go") {
+					if !bad[file] {
+						e.stale = append(e.stale, file+": "+pe.Msg)
+					}
 					bad[file] = true
 				} else if otherErr == "" {
 					otherErr = pe.Error()
@@ -292,7 +317,6 @@ func (e *engine) load() error {
 		})
 		if len(bad) > 0 {
 			for f := range bad {
-				e.stale = append(e.stale, f)
 				delete(e.overlay, f)
 				var keep []*harness
 				for _, h := range e.harnesses {
